@@ -49,7 +49,7 @@ def sym_options(p, n):
     """solver-chosen option vector (concretized where the code needs concrete values)"""
     opts = dict(ignore_diags=concretize(sym_int("ignore_diags", 0, 2)) or False,
                 min_nnz=sym_int("min_nnz", 0, 3), min_count=sym_int("min_count", 0, p.get("cmax", 6)),
-                mad_max=0, tol=p["tol"], max_iters=p["max_iters"], rescale_marginals=p.get("rescale", True))
+                mad_max=p.get("mad_max", 0), tol=p["tol"], max_iters=p["max_iters"], rescale_marginals=p.get("rescale", True))
     bl = [i for i in range(n) if bool(sym_bool(f"bl{i}"))] if p.get("blacklist") else None
     opts["blacklist"] = bl
     return opts
@@ -57,7 +57,7 @@ def sym_options(p, n):
 
 def real_options(p, n, inputs):
     opts = dict(ignore_diags=inputs["ignore_diags"] or False, min_nnz=inputs["min_nnz"], min_count=inputs["min_count"],
-                mad_max=0, tol=p["tol"], max_iters=p["max_iters"], rescale_marginals=p.get("rescale", True))
+                mad_max=p.get("mad_max", 0), tol=p["tol"], max_iters=p["max_iters"], rescale_marginals=p.get("rescale", True))
     opts["blacklist"] = [i for i in range(n) if inputs.get(f"bl{i}")] if p.get("blacklist") else None
     return opts
 
@@ -91,6 +91,35 @@ def expected_masks(layout, b1, b2, v, opts, mode):
     mn, mc = opts["min_nnz"], opts["min_count"]
     bl = opts.get("blacklist") or []
     filt = [or_(and_(mn > 0, nnz[i] < mn), and_(mc != 0, cnt[i] < mc), i in bl) for i in range(n)]
+    amb = [False] * n
+    if opts.get("mad_max"):
+        # MAD-max: needs concrete data (log/median of floats). Documented rule: a bin is dropped when the log of its marginal,
+        # normalised by the median non-zero marginal of its chromosome, lies more than mad_max median absolute deviations
+        # below the median log marginal. A bin whose marginal sits on the cut-off (to 1e-9) is ambiguous in binary64.
+        import statistics
+        m = [float(int(x)) for x in cnt]
+        for c in set(ch):
+            idx = [i for i in range(n) if ch[i] == c]
+            nz = [m[i] for i in idx if m[i] > 0]
+            if nz:
+                med = statistics.median(nz)
+                for i in idx:
+                    m[i] = m[i] / med
+        L = [math.log(x) for x in m if x > 0]
+        if L:
+            medL = statistics.median(L)
+            dev = statistics.median([abs(x - medL) for x in L])
+            arg = medL - opts["mad_max"] * dev
+            cutoff = math.exp(arg)
+            exact = arg == 0.0       # log(1.0) and exp(0.0) are exact in every libm: no rounding band around the cut-off
+            for i in range(n):
+                if not exact and abs(m[i] - cutoff) <= 1e-9 * cutoff:
+                    amb[i] = True
+                elif 0 < m[i] < cutoff:
+                    # (a bin with a zero marginal has no logarithm; whether it counts as an "outlier" is the same open question as
+                    # the status of data-less bins without MAD-max - DESIGN 4/C10 - and is not asserted: it has no live pixel, so no
+                    # other bin's status depends on it)
+                    filt[i] = True
     # data seen by the iteration: both partners unfiltered (and inter-chromosomal only in trans mode)
     live = []
     for q in range(K):
@@ -100,6 +129,10 @@ def expected_masks(layout, b1, b2, v, opts, mode):
         pf = or_(*[and_(b1[q] == i, filt[i]) for i in range(n)], *[and_(b2[q] == i, filt[i]) for i in range(n)])
         live.append(and_(c, not_(pf)))
     touched = [or_(*[and_(live[q], or_(b1[q] == i, b2[q] == i)) for q in range(K)]) for i in range(n)]
+    if any(amb):
+        # a bin on the MAD cut-off may or may not be dropped in binary64, and its neighbours' status depends on it:
+        # nothing is asserted for this data set (every bin reported as 'status not determined')
+        return [False] * n, [False] * n, [False] * n
     if mode == "cis":
         dead = [not_(or_(*[touched[j] for j in range(n) if ch[j] == ch[i]])) for i in range(n)]
     else:
